@@ -118,6 +118,8 @@ end Race
     execute() returned after an operator abort at some scheduling step; the same end-of-run contract applies -/
 def handleAbort (ts : Toks) : String :=
   let (_, real) := splitAt "#" ts
+  -- the other thread's execute() started only after the first run had ended: two runs one after the other, nothing to judge
+  if real == ["R:second-execute-was-sequential"] then reply true true "ok" else
   if real.contains "R:sigint-outside-the-wait" then reply true false "sigint-outside-the-wait" else
   let fails : List String :=
     (if real.any (·.startsWith "R:") then (real.filter (·.startsWith "R:")).map (fun t => (t.drop 2).toString) else []) ++
